@@ -12,7 +12,7 @@ From AV Require Import Base.Bytes Base.Outcome Hash.HashModel Tree.Heap Tree.Ops
   Tree.IndexProofsTree Tree.IndexProofsCreate Tree.IndexProofsNamed Tree.IndexProofsEdit Tree.Refs Tree.RefsProofsBase Tree.RefsProofs
   Tree.Follow Tree.FollowProofsPath Tree.FollowProofsLoop Tree.FollowProofsLoopG Tree.FollowProofsRename Tree.FollowProofsTree
   Tree.FollowProofsMove Tree.IndexProofsRename Tree.IndexProofsRenameOps Tree.IndexProofsSetName Tree.RefsProofsSetName
-  Tree.IndexProofsRemove Tree.IndexProofsRemoveOp Tree.IndexProofsMoveTree.
+  Tree.IndexProofsRemove Tree.IndexProofsRemoveOp Tree.IndexProofsMoveTree Tree.Fail Tree.FailProofsMove.
 Open Scope string_scope.
 Open Scope list_scope.
 Open Scope N_scope.
@@ -370,6 +370,259 @@ Proof.
   assert (n5 = n) by congruence. subst n5.
   apply N.ltb_ge in Elen.
   destruct (Hpass (N.to_nat pos)) as (_ & HJ); [lia|exact Hfd|]. exact HJ.
+Qed.
+
+(* ---------- re-positioning inside one parent of a type that is not named: the order of the items changes *)
+Lemma in_insert_any {A} (l : list A) k x y : In y (insert_at l k x) <-> y = x \/ In y l.
+Proof.
+  revert k. induction l as [|z l IH]; intros [|k]; cbn.
+  - split; [intros [->|[]]|intros [->|[]]]; auto.
+  - split; [intros [->|[]]|intros [->|[]]]; auto.
+  - split; [intros [->|H]|intros [->|H]]; auto.
+  - rewrite IH. split; [intros [->|[->|H]]|intros [->|[->|H]]]; auto.
+Qed.
+Lemma nodup_elem_ids_insert_any l k c : ~ In c (elem_ids l) -> NoDup (elem_ids l) -> NoDup (elem_ids (insert_at l k (CElem c))).
+Proof.
+  revert k. induction l as [|z l IH]; intros [|k] Hc Hnd; cbn in *.
+  - constructor; [intros []|constructor].
+  - constructor; [intros []|constructor].
+  - constructor; assumption.
+  - destruct z as [y|d]; cbn in *.
+    + apply NoDup_cons_iff in Hnd as (Hy & Hnd). constructor.
+      * intros Hin. apply in_elem_ids, in_insert_any in Hin. destruct Hin as [[= ->]|Hin]; [apply Hc; left; reflexivity|].
+        apply Hy. apply in_elem_ids. exact Hin.
+      * apply IH; [intros H; apply Hc; right; exact H|exact Hnd].
+    + apply IH; [exact Hc|exact Hnd].
+Qed.
+
+Section Permute.
+Variables (w : world) (h : id) (n : node) (l' : list citem).
+Hypothesis HJ : J5 w.
+Hypothesis Hn : w_nodes w h = Some n.
+Hypothesis Hnn : named T (n_type n) = false.
+Hypothesis Hsame : forall c, In (CElem c) l' <-> In (CElem c) (n_content n).
+Hypothesis Hnd : NoDup (elem_ids l').
+Hypothesis Hkid : exists c, In (CElem c) (n_content n).
+Let n' := set_content n l'.
+Let w' := edit_world w h n'.
+
+Lemma pm_other j : j <> h -> w_nodes w' j = w_nodes w j.
+Proof. intros Hne. cbn. apply upd_neq. exact Hne. Qed.
+Lemma pm_self : w_nodes w' h = Some n'.
+Proof. cbn. apply upd_eq. Qed.
+Lemma pm_mode : content_mode T (n_type n) <> Val MCharacters.
+Proof.
+  destruct HJ as (_ & H4 & _). intros Hm. destruct Hkid as (c & Hc).
+  pose proof (chars_content_elems _ (i4_leaf _ _ _ H4 _ _ Hn Hm)) as He. apply in_elem_ids in Hc. rewrite He in Hc. destruct Hc.
+Qed.
+Lemma pm_not_short : n_name n <> SHORTN.
+Proof. destruct HJ as (_ & H4 & _). intros E. destruct (i4_short _ _ _ H4 _ _ Hn E) as (Hm & _). exact (pm_mode Hm). Qed.
+Lemma pm_not_ref : isref T (n_type n) = false.
+Proof.
+  unfold isref. destruct (is_ref T (n_type n)) as [[|]| |] eqn:Er; try reflexivity. exfalso. apply pm_mode. apply (tk_ref _ _ TK _ Er).
+Qed.
+Lemma pm_node j nj' : w_nodes w' j = Some nj' -> exists nj, w_nodes w j = Some nj /\ n_name nj' = n_name nj /\ n_type nj' = n_type nj /\
+  n_parent nj' = n_parent nj /\ (j <> h -> nj' = nj) /\ (j = h -> nj' = n').
+Proof.
+  intros Hj. destruct (N.eq_dec j h) as [->|Hne].
+  - rewrite pm_self in Hj. injection Hj as <-. exists n. repeat split; auto. congruence.
+  - rewrite (pm_other j Hne) in Hj. exists nj'. repeat split; auto. congruence.
+Qed.
+Lemma pm_child p c : child_of w' p c <-> child_of w p c.
+Proof.
+  unfold child_of. destruct (N.eq_dec p h) as [->|Hne].
+  - rewrite pm_self, Hn. split; intros (x & [= <-] & Hc); eexists; (split; [reflexivity|]); cbn in *; apply Hsame; exact Hc.
+  - rewrite (pm_other p Hne). tauto.
+Qed.
+Lemma pm_short_child x : short_child T w' x = short_child T w x.
+Proof.
+  rewrite !short_child_hd. destruct (hd_error (n_content x)) as [[y|d]|]; try reflexivity.
+  destruct (N.eq_dec y h) as [->|Hne].
+  - rewrite pm_self, Hn. cbn [n' set_content n_name]. pose proof pm_not_short as H. apply N.eqb_neq in H. rewrite H. reflexivity.
+  - rewrite (pm_other y Hne). reflexivity.
+Qed.
+Lemma pm_readings j : seg T w' j = seg T w j /\ identifiable T w' j = identifiable T w j.
+Proof.
+  unfold seg, identifiable. destruct (N.eq_dec j h) as [->|Hne].
+  - rewrite pm_self, Hn. unfold seg_n, item_name_n, identifiable_n. cbn [n' set_content n_type]. rewrite Hnn. auto.
+  - rewrite (pm_other j Hne). destruct (w_nodes w j) as [nj|]; [|auto].
+    destruct (readings_ext T w w' nj nj eq_refl (pm_short_child nj)) as (_ & H2 & H3). auto.
+Qed.
+Lemma pm_dpath a i q : dpath T w' a i q <-> dpath T w a i q.
+Proof.
+  split; intros H; induction H as [|p c q Hp IH Hc]; try constructor.
+  - destruct (pm_readings c) as (-> & _). econstructor; [exact IH|]. apply pm_child. exact Hc.
+  - destruct (pm_readings c) as (<- & _). econstructor; [exact IH|]. apply pm_child. exact Hc.
+Qed.
+Lemma pm_mreach m i : MReach T w' m i <-> MReach T w m i.
+Proof.
+  unfold MReach, reach. change (model_at w' m) with (model_at w m).
+  split; intros (x & Hx & (q & Hd)); exists x; (split; [exact Hx|]); exists q; apply pm_dpath; exact Hd.
+Qed.
+Lemma pm_pathset m p i : PathSet T w' m p i <-> PathSet T w m p i.
+Proof.
+  unfold PathSet. rewrite pm_mreach. destruct (pm_readings i) as (_ & ->). unfold SpecPath, spath. change (model_at w' m) with (model_at w m).
+  split; intros (H1 & H2 & (x & Hx & (q & Hd & ->))); (split; [exact H1|]); (split; [exact H2|]); exists x; (split; [exact Hx|]); exists q;
+    (split; [apply pm_dpath; exact Hd|]); destruct (pm_readings (m_root x)) as (E & _); rewrite E; reflexivity.
+Qed.
+Lemma pm_ref_text j : ref_text T w' j = ref_text T w j.
+Proof.
+  unfold ref_text. destruct (N.eq_dec j h) as [->|Hne]; [|rewrite (pm_other j Hne); reflexivity].
+  rewrite pm_self, Hn. cbn [n' set_content n_type]. rewrite pm_not_ref. reflexivity.
+Qed.
+
+Theorem permute_j5 : J5 w'.
+Proof.
+  destruct HJ as (HF & H4 & H5). pose proof H4 as [I1 I2 I3 IL I4 I5]. split; [|split].
+  - (* TreeFacts *)
+    constructor.
+    + intros p c Hc. apply pm_child in Hc. destruct (tf_up _ HF _ _ Hc) as (cn & Hcn & Hp).
+      destruct (N.eq_dec c h) as [->|Hne]; [rewrite Hn in Hcn; injection Hcn as <-; exists n'; split; [apply pm_self|exact Hp]|].
+      exists cn. split; [rewrite (pm_other c Hne); exact Hcn|exact Hp].
+    + intros p np' Hp. destruct (pm_node p np' Hp) as (np & Hp0 & _ & _ & _ & Hne & Heq). destruct (N.eq_dec p h) as [->|Hph].
+      * rewrite (Heq eq_refl). exact Hnd.
+      * rewrite (Hne Hph). eapply tf_nodup; eauto.
+    + intros c cn' p Hc Hp. destruct (pm_node c cn' Hc) as (cn & Hc0 & _ & _ & Hpar & _). apply pm_child. eapply tf_down; eauto. congruence.
+    + intros m x Hx. change (model_at w' m) with (model_at w m) in Hx. destruct (tf_roots _ HF _ _ Hx) as (nr & Hnr & Hp).
+      destruct (N.eq_dec (m_root x) h) as [E|Hne]; [rewrite E in *; rewrite Hn in Hnr; injection Hnr as <-; exists n'; split; [apply pm_self|exact Hp]|].
+      exists nr. split; [rewrite (pm_other _ Hne); exact Hnr|exact Hp].
+    + intros i ni' m Hi Hp. destruct (pm_node i ni' Hi) as (ni & Hi0 & _ & _ & Hpar & _). apply (tf_pmodel _ HF i ni m Hi0). congruence.
+    + intros i ni' Hi. destruct (pm_node i ni' Hi) as (ni & Hi0 & _). destruct (tf_depth _ HF _ _ Hi0) as (k & Hk). exists k.
+      clear Hi ni' Hi0 ni. induction Hk as [i ni Hi Ht|i ni p k Hi Hp Hd IH].
+      * destruct (N.eq_dec i h) as [->|Hne]; [rewrite Hn in Hi; injection Hi as <-; eapply pd_top; [apply pm_self|exact Ht]|].
+        eapply pd_top; [rewrite (pm_other i Hne); exact Hi|exact Ht].
+      * destruct (N.eq_dec i h) as [->|Hne]; [rewrite Hn in Hi; injection Hi as <-; eapply pd_step; [apply pm_self|exact Hp|exact IH]|].
+        eapply pd_step; [rewrite (pm_other i Hne); exact Hi|exact Hp|exact IH].
+    + intros i ni' Hi. destruct (pm_node i ni' Hi) as (ni & Hi0 & _). change (w_next w') with (w_next w). eapply tf_alloc; eauto.
+  - (* Inv04 *)
+    constructor.
+    + intros j nj' Hj Hs. destruct (pm_node j nj' Hj) as (nj & Hj0 & Hnm & Hty & _). rewrite Hty. eapply I1; eauto. congruence.
+    + intros j nj' t Hj Hs Hcd. destruct (pm_node j nj' Hj) as (nj & Hj0 & Hnm & Hty & _ & Hne & Heq). destruct (N.eq_dec j h) as [->|Hjh].
+      * exfalso. rewrite Hn in Hj0. injection Hj0 as <-. apply pm_not_short. rewrite <- Hnm. exact Hs.
+      * rewrite (Hne Hjh) in *. eapply I2; eauto.
+    + intros j nj' Hj Hid. destruct (pm_node j nj' Hj) as (nj & Hj0 & _ & _ & _ & Hne & Heq). destruct (N.eq_dec j h) as [->|Hjh].
+      * rewrite (Heq eq_refl) in Hid. unfold identifiable_n in Hid. cbn [n' set_content n_type] in Hid. rewrite Hnn in Hid. discriminate.
+      * rewrite (Hne Hjh) in *. destruct (readings_ext T w w' nj nj eq_refl (pm_short_child nj)) as (H1 & H2 & _). rewrite H1.
+        apply (I3 j nj Hj0). rewrite <- H2. exact Hid.
+    + intros j nj' Hj Hm. destruct (pm_node j nj' Hj) as (nj & Hj0 & _ & Hty & _ & Hne & Heq). destruct (N.eq_dec j h) as [->|Hjh].
+      * exfalso. rewrite Hn in Hj0. injection Hj0 as <-. apply pm_mode. congruence.
+      * rewrite (Hne Hjh) in *. eapply IL; eauto.
+    + intros m x Hx p i. rewrite pm_pathset. apply (I4 m x Hx).
+    + intros m x Hx. apply (I5 m x Hx).
+  - (* Inv05 *)
+    eapply inv05_transfer; [| |exact H5].
+    + intros m p r. unfold RefSet. rewrite pm_mreach, pm_ref_text. tauto.
+    + intros m. reflexivity.
+Qed.
+End Permute.
+
+(* ---------- the public calls *)
+Variable root_attrs : list (N * cdata).
+Notation Known05 := (Known05 T tab_el tab_en check_fn LATEST root_attrs).
+
+Lemma pref_eqb_eq a b : pref_eqb a b = true -> a = b.
+Proof. destruct a, b; cbn; try discriminate; try reflexivity; intros H; apply N.eqb_eq in H; congruence. Qed.
+Lemma plink_eqb_true w w' i : plink_eqb w w' i = true -> parent_link w' i = parent_link w i.
+Proof.
+  unfold plink_eqb, parent_link. destruct (option_map n_parent (w_nodes w i)) as [a|], (option_map n_parent (w_nodes w' i)) as [b|]; try discriminate; [|reflexivity].
+  intros H. apply pref_eqb_eq in H. congruence.
+Qed.
+
+Lemma nodup_remove_at sub l cur : NoDup (elem_ids l) -> index_of (citem_is sub) l = Some cur ->
+  NoDup (elem_ids (remove_at l cur)) /\ ~ In sub (elem_ids (remove_at l cur)).
+Proof.
+  intros Hnd Hidx. pose proof (in_remove_at_citem sub l cur sub Hnd Hidx) as Hin.
+  apply index_of_split in Hidx as (l1 & y & l2 & -> & <- & Hy & _). rewrite remove_at_split in *.
+  destruct y as [c0|d0]; cbn in Hy; [|discriminate]. apply N.eqb_eq in Hy. subst c0.
+  unfold elem_ids in *. rewrite flat_map_app in *. cbn [flat_map] in Hnd. cbn in Hnd. split.
+  - apply NoDup_remove_1 in Hnd. exact Hnd.
+  - apply NoDup_remove_2 in Hnd. exact Hnd.
+Qed.
+
+Lemma src_front_false w mv mn sp : src_front T w mv = false -> w_nodes w mv = Some mn -> n_parent mn = PElem sp ->
+  remove_front T w sp (N.eqb mv) = false.
+Proof. intros H Hmn Hp. unfold src_front in H. rewrite Hmn, Hp in H. exact H. Qed.
+
+Lemma simple_move_models w h mv m m_src :
+  simple_move T w h mv = true -> model_of h w = Val (OK m, w) -> model_of mv w = Val (OK m_src, w) ->
+  identifiable T w mv = true /\ m_src = m.
+Proof.
+  intros H H1 H2. unfold simple_move in H. apply andb_true_iff in H as (Hid & Hm). rewrite H1, H2 in Hm. apply N.eqb_eq in Hm. auto.
+Qed.
+
+Theorem C45_move h mv w r w' :
+  J5 w -> Known04 T LATEST w (OpMove h mv) = false -> Known05 w (OpMove h mv) = false -> simple_move T w h mv = true ->
+  e_move_element_here T tab_en check_fn LATEST h mv w = Val (r, w') -> J5 w'.
+Proof.
+  intros HJ HK4 HK5 Hsimple H. destruct r as [i|e].
+  2:{ (* failure: nothing happened, or the late class *)
+      destruct (e_move_here_fail T tab_en check_fn LATEST h mv w e w' H) as [->|(_ & Hpl)]; [exact HJ|]. exfalso.
+      cbn [Refs.Known05 run_op] in HK5. unfold welem, wbind in HK5. rewrite H in HK5. apply negb_false_iff, plink_eqb_true in HK5. contradiction. }
+  pose proof HJ as (HT & H4 & H5). cbn [Known04] in HK4. apply orb_false_iff in HK4 as (HK4 & Hsrcf). apply orb_false_iff in HK4 as (Hshort & Hfront).
+  unfold e_move_element_here in H. destruct (h =? mv) eqn:Ehm; [discriminate H|]. apply N.eqb_neq in Ehm.
+  wk H. wk H. wk H. wk H. destruct (negb (a2 =? a1)); [discriminate H|].
+  wk H. apply get_node_inv in E3 as (n & Hn & Q & _). injection Q as ->.
+  wk H. apply get_node_inv in E3 as (mn & Hmn & Q & _). injection Q as ->.
+  wk H. destruct a3 as (rs, re).
+  destruct (simple_move_models w h mv a0 a Hsimple E0 E) as (Hid & ->). rewrite N.eqb_refl in H.
+  wk H. destruct a as [p|]; [|discriminate H].
+  assert (Hpar : n_parent mn = PElem p).
+  { unfold parent_of in E4. destruct (n_parent mn); try discriminate E4. apply wret_inv in E4 as ([= ->] & _). reflexivity. }
+  destruct (p =? h) eqn:Eph; [apply wret_inv in H as (_ & ->); exact HJ|]. apply N.eqb_neq in Eph.
+  eapply (move_local_j5 h mv re a0 a2 w w' i HJ H); eauto.
+  - apply model_of_mreach; assumption.
+  - apply model_of_mreach; assumption.
+  - intros n0 Hn0. assert (n0 = n) by congruence. subst n0. eapply calc_range_mode; eauto.
+  - intros Hre. unfold nm_of in Hfront. rewrite Hmn in Hfront.
+    destruct (front_false_end T LATEST w h n (n_name mn) a2 rs re Hn E2 E3 Hfront Hre) as (Hi & _). unfold identifiable. rewrite Hn. exact Hi.
+  - intros mn0 sp0 Hmn0 Hp0. eapply src_front_false; eauto.
+  - intros mn0 Hmn0. assert (mn0 = mn) by congruence. subst mn0. rewrite Hpar. congruence.
+Qed.
+
+Theorem C45_move_at h mv pos w r w' :
+  J5 w -> Known04 T LATEST w (OpMoveAt h mv pos) = false -> Known05 w (OpMoveAt h mv pos) = false -> simple_move T w h mv = true ->
+  e_move_element_here_at T tab_en check_fn LATEST h mv pos w = Val (r, w') -> J5 w'.
+Proof.
+  intros HJ HK4 HK5 Hsimple H. destruct r as [i|e].
+  2:{ destruct (e_move_here_at_fail T tab_en check_fn LATEST h mv pos w e w' H) as [->|(_ & Hpl)]; [exact HJ|]. exfalso.
+      cbn [Refs.Known05 run_op] in HK5. unfold welem, wbind in HK5. rewrite H in HK5. apply negb_false_iff, plink_eqb_true in HK5. contradiction. }
+  pose proof HJ as (HT & H4 & H5). cbn [Known04] in HK4. apply orb_false_iff in HK4 as (HK4 & Hspn). apply orb_false_iff in HK4 as (HK4 & Hsrcf).
+  apply orb_false_iff in HK4 as (Hshort & Hfront).
+  unfold e_move_element_here_at in H. destruct (h =? mv) eqn:Ehm; [discriminate H|]. apply N.eqb_neq in Ehm.
+  wk H. wk H. wk H. wk H. destruct (negb (a2 =? a1)); [discriminate H|].
+  wk H. apply get_node_inv in E3 as (n & Hn & Q & _). injection Q as ->.
+  wk H. apply get_node_inv in E3 as (mn & Hmn & Q & _). injection Q as ->.
+  wk H. destruct a3 as (rs, re).
+  destruct ((rs <=? pos) && (pos <=? re)); [|discriminate H].
+  destruct (simple_move_models w h mv a0 a Hsimple E0 E) as (Hid & ->). rewrite N.eqb_refl in H.
+  wk H. destruct a as [p|]; [|discriminate H].
+  assert (Hpar : n_parent mn = PElem p).
+  { unfold parent_of in E4. destruct (n_parent mn); try discriminate E4. apply wret_inv in E4 as ([= ->] & _). reflexivity. }
+  destruct (p =? h) eqn:Eph.
+  - (* the same parent: only the position changes *)
+    apply N.eqb_eq in Eph. subst p. unfold move_element_position in H. wk H.
+    apply get_node_inv in E5 as (n0 & Hn0 & Q & _). injection Q as ->. assert (n0 = n) by congruence. subst n0.
+    destruct (pos <? re); [|discriminate H].
+    destruct (index_of (citem_is mv) (n_content n)) as [cur|] eqn:Eidx; [|discriminate H].
+    wk H. apply set_node_inv in E5 as (_ & ->). apply wret_inv in H as (_ & ->).
+    assert (Hnn : named T (n_type n) = false).
+    { unfold same_parent_named, named_node in Hspn. rewrite Hn, Hmn, Hpar, N.eqb_refl, andb_true_r in Hspn. exact Hspn. }
+    pose proof (tf_nodup _ HT _ _ Hn) as Hnd0. destruct (nodup_remove_at mv _ cur Hnd0 Eidx) as (Hnd1 & Hnin).
+    apply (permute_j5 w h n (insert_at (remove_at (n_content n) cur) (N.to_nat pos) (CElem mv)) HJ Hn Hnn).
+    + intros c. rewrite in_insert_any, (in_remove_at_citem mv _ cur c Hnd0 Eidx). split.
+      * intros [[= ->]|(Hc & _)]; [eapply index_of_citem; eauto|exact Hc].
+      * intros Hc. destruct (N.eq_dec c mv) as [->|Hne]; [left; reflexivity|right; auto].
+    + apply nodup_elem_ids_insert_any; assumption.
+    + exists mv. eapply index_of_citem; eauto.
+  - apply N.eqb_neq in Eph.
+    eapply (move_local_j5 h mv pos a0 a2 w w' i HJ H); eauto.
+    + apply model_of_mreach; assumption.
+    + apply model_of_mreach; assumption.
+    + intros n0 Hn0. assert (n0 = n) by congruence. subst n0. eapply calc_range_mode; eauto.
+    + intros Hre. unfold nm_of in Hfront. rewrite Hmn in Hfront.
+      destruct (front_false_at T LATEST w h n (n_name mn) pos Hn Hfront Hre) as (Hi & _). unfold identifiable. rewrite Hn. exact Hi.
+    + intros mn0 sp0 Hmn0 Hp0. eapply src_front_false; eauto.
+    + intros mn0 Hmn0. assert (mn0 = mn) by congruence. subst mn0. rewrite Hpar. congruence.
 Qed.
 
 End MoveOp.
